@@ -209,8 +209,16 @@ def trxc_path(ctx, r):
 			# long SETFH handling belongs to C05; do not judge it here
 			ctx.count("setfh_not_acknowledged")
 			continue
-		if getattr(node.trx, "fh", None) is None or len(node.trx.fh.ma) != n:
-			ctx.count("setfh_truncated_by_ctrl_if")   # C05's finding, not C07's
+		fh = getattr(node.trx, "fh", None)
+		if fh is None or not hasattr(fh, "ma") or len(fh.ma) != n:
+			# acknowledged with status 0, yet the transceiver does not hop over the n channels given
+			# (the 128-octet truncation that once explained this was repaired in 026a604)
+			ctx.violation("setfh", {"cmd": cmd[:400], "channels_given": n,
+				"channels_configured": None if fh is None or not hasattr(fh, "ma") else len(fh.ma)},
+				what = "CMD SETFH with %d channels is acknowledged, but the simulator %s" % (n,
+					"has no hopping configured" if fh is None else "hops over another number of channels"))
+			if ctx.too_many():
+				return
 			continue
 		for _ in range(8):
 			fn = r.randrange(2715648)
